@@ -43,6 +43,7 @@ class AsyncFileSink : public AsyncSink {
 
   protected:
     void updateInnerValues();
+    void closeLogFile();
 
     virtual void endline() override;
     virtual void flush() override;
@@ -63,6 +64,7 @@ class AsyncFileSink : public AsyncSink {
     std::vector<char> buffer_;
 
     int fd_ = -1;
+    bool need_reopen_ = false;  //!< a setter asked for a new file while a tail was cached
     size_t total_write_size_ = 0;
 };
 
